@@ -157,6 +157,7 @@ def run(ctx):
         _panic(ctx, cfg, prog, mod)
         _callban(ctx, cfg, prog, mod)
         _finite(ctx, cfg, prog, mod)
+        _assertgate(ctx, cfg, prog, mod)
     return ctx.finish(EXPLANATION)
 
 
@@ -461,6 +462,55 @@ def _callban(ctx, cfg, prog, mod):
                'keyed indexing `%s[key]` at %s:%d panics on a stale or foreign key; use get()/get_mut()' % (st[:50], file, line),
                site='%s:%d' % (file, line))
     ctx.ob('CALLBAN', 'slotmap-index', cfg, not bad, 'call sites scanned: %d; keyed slot-map Index/IndexMut: %d' % (n, len(bad)))
+
+
+# ------------------------------------------------------------------------------------------ ASSERTGATE
+def _assertgate(ctx, cfg, prog, mod):
+    """A helper that *asserts* hull freshness (debug_assert on the generation comparison) panics when
+    it is handed a stale hull: every caller must have taken the fresh edge of the typed staleness
+    check before calling it."""
+    import c11
+    ctx.rule('ASSERTGATE', 'helpers that assert hull freshness are called only behind the typed staleness check')
+    gen_only = c11._generation_only(prog, mod)
+    preds = {q for q in gen_only if prog.bodies[q].locals[0] == 'bool' and c11._eq_polarity(prog, q)}
+    asserting = {}
+    for q, b in prog.bodies.items():
+        if b.kind == 'closure' or not q.startswith(c11.HULL + '::') or not c11._tri_params(b):
+            continue
+        edges, _ = c11._gate_edges(prog, mod, q, preds)
+        if not edges:
+            continue
+        stale = {(sbb, s_) for (sbb, fresh) in edges for s_ in b.succs(sbb) if s_ != fresh}
+        panics = [bb for bb, t in b.calls() if (t.resolved or t.callee or '').startswith('core::panicking')
+                  and 'assert' in ' '.join(t.exp or [])]
+        if not panics:
+            continue
+        reach = flow.reach_edges(b, [0], avoid_edges=stale)
+        sp = [p for p in panics if p not in reach]
+        if sp:
+            asserting[q] = sp
+    n = 0
+    for fq in sorted(asserting):
+        for gq in sorted(prog.callers.get(fq, ())):
+            gb = prog.bodies.get(gq)
+            if gb is None:
+                continue
+            calls = [bb for bb, t in gb.calls() if (t.resolved or t.callee) == fq]
+            if not calls:
+                continue
+            n += 1
+            gedges, gdescr = c11._gate_edges(prog, mod, gb.q, preds) if c11._tri_params(gb) else (set(), [])
+            reach = flow.reach_edges(gb, [0], avoid_edges=gedges)
+            bad = [bb for bb in calls if bb in reach]
+            ctx.ob('ASSERTGATE', '%s|%s' % (gb.root or gq, fq.rsplit('::', 1)[-1]), cfg, not bad,
+                   '%s asserts hull freshness (debug_assert); %s calls it %s' % (
+                       fq.rsplit('::', 1)[-1], gq.rsplit('::', 1)[-1],
+                       'only behind its own typed staleness check (%s)' % ', '.join(gdescr[:2]) if not bad else
+                       'WITHOUT first taking the fresh edge of a typed staleness check: a stale hull panics in debug builds'),
+                   site='%s:%d' % (gb.file, gb.line))
+    ctx.ob('ASSERTGATE', 'scan', cfg, True, 'freshness-asserting helpers: %s; call sites examined: %d' % (
+        sorted(a.rsplit('::', 1)[-1] for a in asserting), n))
+    ctx.floor('freshness-asserting helpers', 1, len(asserting), cfg)
 
 
 # ------------------------------------------------------------------------------------------ FINITE
